@@ -14,6 +14,11 @@ The version is carried as its normalised text `str(Release.Key)` (`ForML.Keys.vs
 `Release.Key(str(v)) == v` is a property of `packaging` (sampled by the harness, not modelled).
 Python literal reading is modelled for the escapes listed in `pyEsc`; `\x`, octal, `\N`, `\U` are
 `outOfModel` (never produced by `json.dumps`).
+
+The template text is kept as four named constants of code points (`sNAME`, `qVERSION`, `qPACKAGE`, `qMODULES`; the
+rendered text is compared with the real file by the harness on every run) and the readers are written with
+explicit `if c == …` tests and the helper `push`, so that proofs go through one-step lemmas
+(ForML.Lemmas.C18Py) instead of reducing a parser over literal lists.
 -/
 import ForML.Model.Keys
 
@@ -57,22 +62,33 @@ def jstr : List Nat → List Nat
   | [] => []
   | c :: r => jesc c ++ jstr r
 
-/-- `"k": "v"` items joined by `, ` and closed by `}` -/
-def jitems : List (List Nat × List Nat) → List Nat
+/-- one `"k": "v"` item followed by `tail` -/
+def jitem (k v tail : List Nat) : List Nat :=
+  34 :: (jstr k ++ 34 :: 58 :: 32 :: 34 :: (jstr v ++ 34 :: tail))
+
+/-- what follows an item: `}` or `, ` and the next item (`', '.join(items)`) -/
+def jrest : List (List Nat × List Nat) → List Nat
   | [] => [125]
-  | [(k, v)] => 34 :: jstr k ++ [34, 58, 32, 34] ++ jstr v ++ [34, 125]
-  | (k, v) :: r => 34 :: jstr k ++ [34, 58, 32, 34] ++ jstr v ++ [34, 44, 32] ++ jitems r
+  | (k, v) :: r => 44 :: 32 :: jitem k v (jrest r)
 
-def jdict (m : List (List Nat × List Nat)) : List Nat := 123 :: jitems m
+/-- `json.dumps(dict(modules))` (default separators) -/
+def jdict : List (List Nat × List Nat) → List Nat
+  | [] => [123, 125]
+  | (k, v) :: r => 123 :: jitem k v (jrest r)
 
-def sNAME : List Nat := "NAME = \"".toList.map Char.toNat
-def sVERSION : List Nat := "\"\nVERSION = \"".toList.map Char.toNat
-def sPACKAGE : List Nat := "\"\nPACKAGE = \"".toList.map Char.toNat
-def sMODULES : List Nat := "\"\nMODULES = ".toList.map Char.toNat
+/-- `NAME = "` -/
+def sNAME : List Nat := [78, 65, 77, 69, 32, 61, 32, 34]
+/-- `\nVERSION = "` (after the quote closing the name) -/
+def qVERSION : List Nat := [10, 86, 69, 82, 83, 73, 79, 78, 32, 61, 32, 34]
+/-- `\nPACKAGE = "` -/
+def qPACKAGE : List Nat := [10, 80, 65, 67, 75, 65, 71, 69, 32, 61, 32, 34]
+/-- `\nMODULES = ` -/
+def qMODULES : List Nat := [10, 77, 79, 68, 85, 76, 69, 83, 32, 61, 32]
 
-/-- `Manifest.TEMPLATE.substitute(...)` -/
+/-- `Manifest.TEMPLATE.substitute(...)`:
+`NAME = "$name"\nVERSION = "$version"\nPACKAGE = "$package"\nMODULES = $modules` -/
 def render (m : Manifest) : List Nat :=
-  sNAME ++ m.name ++ sVERSION ++ m.version ++ sPACKAGE ++ m.package ++ sMODULES ++ jdict m.modules
+  sNAME ++ (m.name ++ 34 :: (qVERSION ++ (m.version ++ 34 :: (qPACKAGE ++ (m.package ++ 34 :: (qMODULES ++ jdict m.modules))))))
 
 /-! ### reading back (Python literals) -/
 
@@ -89,6 +105,20 @@ def pyEsc (c : Nat) : Option Nat :=
   else if c == 110 then some 10 else if c == 114 then some 13 else if c == 116 then some 9
   else if c == 118 then some 11 else none
 
+/-- prepend decoded characters to the result of reading the rest of the literal -/
+def push (cs : List Nat) : Except ReadErr (List Nat × List Nat) → Except ReadErr (List Nat × List Nat)
+  | .ok (t, rest) => .ok (cs ++ t, rest)
+  | .error e => .error e
+
+/-- `\uXXXX`: the four hex digits -/
+def hex4 (h1 h2 h3 h4 : Nat) : Option Nat :=
+  match hexVal h1, hexVal h2, hexVal h3, hexVal h4 with
+  | some d1, some d2, some d3, some d4 => some (((d1 * 16 + d2) * 16 + d3) * 16 + d4)
+  | _, _, _, _ => none
+
+/-- escapes the model does not read (`\x`, `\N`, `\U`, octal, line continuation) -/
+def unmodelledEsc (c : Nat) : Bool := c == 120 || c == 78 || c == 85 || (48 ≤ c && c ≤ 55) || c == 10
+
 /-- body of a `"`-quoted Python string literal (input starts after the opening quote):
 decoded text and the rest after the closing quote -/
 def pyStr : List Nat → Except ReadErr (List Nat × List Nat)
@@ -101,31 +131,18 @@ def pyStr : List Nat → Except ReadErr (List Nat × List Nat)
       | [] => .error .syntax
       | c :: r =>
         match pyEsc c with
-        | some x =>
-          match pyStr r with
-          | .ok (t, rest) => .ok (x :: t, rest)
-          | .error e => .error e
+        | some x => push [x] (pyStr r)
         | none =>
           if c == 117 then
             match r with
             | h1 :: h2 :: h3 :: h4 :: r' =>
-              match hexVal h1, hexVal h2, hexVal h3, hexVal h4 with
-              | some d1, some d2, some d3, some d4 =>
-                match pyStr r' with
-                | .ok (t, rest) => .ok ((((d1 * 16 + d2) * 16 + d3) * 16 + d4) :: t, rest)
-                | .error e => .error e
-              | _, _, _, _ => .error .syntax
+              match hex4 h1 h2 h3 h4 with
+              | some x => push [x] (pyStr r')
+              | none => .error .syntax
             | _ => .error .syntax
-          else if c == 120 || c == 78 || c == 85 || (48 ≤ c && c ≤ 55) || c == 10 then .error .outOfModel
-          else
-            -- unknown escape: the backslash stays
-            match pyStr r with
-            | .ok (t, rest) => .ok (92 :: c :: t, rest)
-            | .error e => .error e
-    else
-      match pyStr l with
-      | .ok (t, rest) => .ok (a :: t, rest)
-      | .error e => .error e
+          else if unmodelledEsc c then .error .outOfModel
+          else push [92, c] (pyStr r)          -- unknown escape: the backslash stays
+    else push [a] (pyStr l)
 
 /-- strip an expected prefix -/
 def expect : List Nat → List Nat → Except ReadErr (List Nat)
@@ -133,7 +150,7 @@ def expect : List Nat → List Nat → Except ReadErr (List Nat)
   | p :: ps, c :: t => if p == c then expect ps t else .error .syntax
   | _ :: _, [] => .error .syntax
 
-/-- dict display items after `{`, fuel-bounded -/
+/-- `"k": "v"` then `}` (end of the display) or `, ` and further items; fuel-bounded -/
 def pyItems : Nat → List Nat → Except ReadErr (List (List Nat × List Nat))
   | 0, _ => .error .syntax
   | f + 1, t =>
@@ -149,19 +166,23 @@ def pyItems : Nat → List Nat → Except ReadErr (List (List Nat × List Nat))
           match pyStr t with
           | .error e => .error e
           | .ok (v, t) =>
-            match t with
-            | [125] => .ok [(k, v)]
-            | 44 :: 32 :: t' =>
-              match pyItems f t' with
-              | .ok r => .ok ((k, v) :: r)
+            if t == [125] then .ok [(k, v)]
+            else
+              match expect [44, 32] t with
               | .error e => .error e
-            | _ => .error .syntax
+              | .ok t' =>
+                match pyItems f t' with
+                | .ok r => .ok ((k, v) :: r)
+                | .error e => .error e
+
+/-- a dict display of string literals (input starts after `{`) -/
+def pyDictBody (r : List Nat) : Except ReadErr (List (List Nat × List Nat)) :=
+  if r == [125] then .ok [] else pyItems r.length r
 
 def pyDict (t : List Nat) : Except ReadErr (List (List Nat × List Nat)) :=
-  match t with
-  | [123, 125] => .ok []
-  | 123 :: r => pyItems r.length r
-  | _ => .error .syntax
+  match expect [123] t with
+  | .error e => .error e
+  | .ok r => pyDictBody r
 
 /-- `Manifest.read` on the module text -/
 def read (t : List Nat) : Except ReadErr Manifest :=
@@ -171,19 +192,19 @@ def read (t : List Nat) : Except ReadErr Manifest :=
     match pyStr t with
     | .error e => .error e
     | .ok (name, t) =>
-      match expect (sVERSION.drop 1) t with
+      match expect qVERSION t with
       | .error e => .error e
       | .ok t =>
         match pyStr t with
         | .error e => .error e
         | .ok (version, t) =>
-          match expect (sPACKAGE.drop 1) t with
+          match expect qPACKAGE t with
           | .error e => .error e
           | .ok t =>
             match pyStr t with
             | .error e => .error e
             | .ok (package, t) =>
-              match expect (sMODULES.drop 1) t with
+              match expect qMODULES t with
               | .error e => .error e
               | .ok t =>
                 match pyDict t with
